@@ -90,6 +90,8 @@ type GenOpts struct {
 	TxPerBlock  int      // attempted transactions per block (kinds picked at random)
 	Kinds       []string // allowed kinds (nil = all)
 	Corruptions int      // number of corrupted blocks to add
+	Jitter      int      // timestamp jitter in seconds (0 = every block one second after its parent)
+	OnInvalid   int      // header-valid blocks mined on top of body-invalid blocks
 }
 
 // Gen generates a fork tree.
@@ -120,6 +122,7 @@ func Gen(r *rng.R, env *Env, o GenOpts) *Tree {
 		} else {
 			delete(builders, parent)
 		}
+		b.Jitter = o.Jitter
 		for i := 0; i < o.TxPerBlock; i++ {
 			b.AddTx(r, kinds[r.Intn(len(kinds))])
 		}
@@ -135,6 +138,9 @@ func Gen(r *rng.R, env *Env, o GenOpts) *Tree {
 	}
 	for i := 0; i < o.Corruptions; i++ {
 		t.AddCorrupted(r)
+	}
+	for i := 0; i < o.OnInvalid; i++ {
+		t.AddOnInvalid(r)
 	}
 	return t
 }
@@ -324,4 +330,55 @@ func deepCopyBlock(b types.Block) types.Block {
 		panic(d.Err())
 	}
 	return c
+}
+
+// AddOnInvalid mines an empty, header-valid block on top of a block whose
+// header is valid but whose body (or ancestry) is not: a chain that gains work
+// through an invalid block. Returns nil if the tree has no such parent.
+func (t *Tree) AddOnInvalid(r *rng.R) *Node {
+	var cands []*Node
+	for _, n := range t.Nodes {
+		if n.Parent != nil && n.HdrOK && !n.ChainValid() && hdrChainOK(n) {
+			cands = append(cands, n)
+		}
+	}
+	if len(cands) == 0 {
+		return nil
+	}
+	p := cands[r.Intn(len(cands))]
+	cs := p.State
+	var miner types.Address
+	r.Bytes(miner[:])
+	blk := types.Block{
+		ParentID:     p.ID,
+		Timestamp:    cs.PrevTimestamps[0].Add(time.Second),
+		MinerPayouts: []types.SiacoinOutput{{Value: cs.BlockReward(), Address: miner}},
+	}
+	if cs.Index.Height+1 >= cs.Network.HardforkV2.AllowHeight {
+		blk.V2 = &types.V2BlockData{Height: cs.Index.Height + 1}
+		blk.V2.Commitment = cs.Commitment(miner, nil, nil)
+	}
+	FindNonceFrom(cs, &blk, uint64(r.Intn(1<<20)))
+	if _, dup := t.ByID[blk.ID()]; dup {
+		return nil
+	}
+	n := &Node{Block: blk, ID: blk.ID(), Parent: p, Height: p.Height + 1, Corrupt: "child-of-invalid"}
+	n.Future = blk.Timestamp.After(cs.MaxFutureTimestamp(time.Now()))
+	n.HdrOK = !n.Future && consensus.ValidateOrphan(cs, blk) == nil
+	n.BodyOK = false
+	if n.HdrOK {
+		// header-derived state: the oak-era ancestor timestamp is not needed by the generated networks
+		n.State = consensus.ApplyHeader(cs, blk.Header(), time.Time{})
+	}
+	t.add(n)
+	return n
+}
+
+func hdrChainOK(n *Node) bool {
+	for ; n != nil && n.Parent != nil; n = n.Parent {
+		if !n.HdrOK {
+			return false
+		}
+	}
+	return true
 }
